@@ -263,7 +263,7 @@ def run(rep, tier):
     # in-bounds access to heap storage needs the allocation premise of C01: every conversion sizes its buffer for the index range
     from . import c05, c14
     c05.declare(rep)
-    for r in ("C05.a", "C05.cuda", "C05.b", "C05.b-hilbert", "C05.d", "C05.e"):
+    for r in ("C05.f", "C05.a", "C05.cuda", "C05.b", "C05.b-hilbert", "C05.d", "C05.e"):
         rep.rules.pop(r, None)
     c05.run_conversions(c14.only(rep), "quick")
     rep.extra["harness_builds"] = total
